@@ -46,6 +46,8 @@ REFS = {
     "r7": (None, "o", "SET DEFAULT", "SET NULL"),
     "r8": (None, "kv", None, None, ("key", "comment", "default")),      # referenced columns named like keywords
     "r9": ("s9", "kv", "CASCADE", None, ("on", "not", "references")),
+    "r10": (None, "o", None, None, ()),          # REFERENCES o  - no referenced column list (the parent's primary key): reported as [None]
+    "r11": ("s9", "o", None, "CASCADE", ()),
 }
 REFCOLS = ("x", "y", "z")
 # grammar keywords of the pinned tree (frozen here so that the name pool does not follow a changed tokens.py)
@@ -67,18 +69,29 @@ OPENER_WORDS = ("exit prompt rem remark spool whenever begin end commit rollback
                 "deallocate savepoint release abort checkpoint listen notify reindex select values do return loop while case when then else fetch open close").split()
 
 
+# words that are keywords SOMEWHERE in SQL (sort directions, referential actions, constraint states, type words, modifiers) but legal whole
+# column names here - every one verified on the pinned tree as column name, in key / unique / foreign-key lists and in checks
+WHOLE_WORDS = ("asc desc nulls first last action cascade restrict deferred immediate enable disable validate novalidate nonclustered value name "
+               "date time timestamp user level size text year zone always identity virtual hash btree unsigned zerofill binary character charset "
+               "names temporary external transient to of any all some key order type start cache row format comment update column").split()
+
+
 def name_map(seed, salt=0):
     """abstract column names -> concrete identifiers.  seed 0 keeps a, b, c; other seeds draw keyword-shaped but legal
     identifiers (a keyword with a suffix / prefix, any case) so that prefix / substring matching of keywords shows."""
-    if seed % 6 == 5:   # statement-opener words as column names
+    if seed % 7 == 5:   # statement-opener words as column names
         rnd = random.Random(f"openers{seed}:{salt}")     # (salt: another draw per behaviour, so that one run meets every word)
         ws = rnd.sample(OPENER_WORDS, len(ABSTRACT_COLS))
         return {c: (w if rnd.random() < 0.6 else (w.upper() if rnd.random() < 0.5 else w.capitalize())) for c, w in zip(ABSTRACT_COLS, ws)}
-    if seed % 6 == 0:
+    if seed % 7 == 6:   # whole words: sort directions, referential actions, modifiers ... as column names (any letter case)
+        rnd = random.Random(f"whole{seed}:{salt}")
+        ws = rnd.sample(WHOLE_WORDS, len(ABSTRACT_COLS))
+        return {c: (w if rnd.random() < 0.6 else (w.upper() if rnd.random() < 0.5 else w.capitalize())) for c, w in zip(ABSTRACT_COLS, ws)}
+    if seed % 7 == 0:
         return {c: c for c in ABSTRACT_COLS}
-    if seed % 6 == 1:   # names that merely START with a word the lexer matches by regular expression / prefix
+    if seed % 7 == 1:   # names that merely START with a word the lexer matches by regular expression / prefix
         return {"a": "collateral_id", "b": "auto_incremented", "c": "ARRAY_len", "d": "autoincrement_no", "e": "Collated_at"}
-    if seed % 6 == 2:   # legal sibling names that differ only by quoting / letter case
+    if seed % 7 == 2:   # legal sibling names that differ only by quoting / letter case
         return {"a": '"Col"', "b": "col", "c": "COL", "d": "`col`", "e": "[Col]"}
     rnd = random.Random(f"names{seed}:{salt}")
     out, used = {}, set()
@@ -125,7 +138,7 @@ def refcols(rid):
 
 def ref_clause(rid, ncols, rnd=None):
     sch, tb, od, ou = REFS[rid][:4]
-    s = "REFERENCES " + (sch + "." if sch else "") + tb + " (" + ", ".join(refcols(rid)[:ncols]) + ")"
+    s = "REFERENCES " + (sch + "." if sch else "") + tb + (" (" + ", ".join(refcols(rid)[:ncols]) + ")" if refcols(rid) else "")
     parts = []
     if od:
         parts.append("ON DELETE " + od)
@@ -251,7 +264,9 @@ def expected(obs, open_names=(), nm=None):
     for r in obs["refs"]:
         rid, k = r["r"]
         sch, tb, od, ou = REFS[rid][:4]
-        if k == 0:  # named FOREIGN KEY constraint: whole column lists
+        if not refcols(rid):  # no referenced column list: one None, whatever the number of key columns
+            refs.append({"cs": [nm[c] for c in r["cs"]], "sch": sch, "tb": tb, "rc": [None], "od": od, "ou": ou})
+        elif k == 0:  # named FOREIGN KEY constraint: whole column lists
             refs.append({"cs": [nm[c] for c in r["cs"]], "sch": sch, "tb": tb, "rc": list(refcols(rid)[:len(r["cs"])]), "od": od, "ou": ou})
         else:
             refs.append({"cs": [nm[c] for c in r["cs"]], "sch": sch, "tb": tb, "rc": [refcols(rid)[k - 1]], "od": od, "ou": ou})
